@@ -689,14 +689,11 @@ def flex_layout(context, box, bottom_space, skip_stack, containing_block, page_i
         elif 'space-evenly' in line_justify_content:
             position_main += free_space / (len(line) + 1)
 
-        growths = sum(child.style['flex_grow'] for child in children)
         for i, (index, child) in enumerate(line):
             if i:
                 position_main += main_gap
             if main == 'width':
                 child.position_x = position_main
-                if 'stretch' in justify_content and growths:
-                    child.width += free_space * child.style['flex_grow'] / growths
             else:
                 child.position_y = position_main
             margin_main = (
